@@ -29,6 +29,9 @@ type Msg struct {
 	ValueSize int    `json:"value_size"` // total value length (>= len of the id prefix)
 	Headers   int    `json:"headers"`
 	HeaderLen int    `json:"header_len"`
+	// ForceTopic overrides the consistent topic choice: "-" = leave the message
+	// topic empty, any other non-empty value = set it (used to build invalid mixes).
+	ForceTopic string `json:"force_topic,omitempty"`
 }
 
 // Call is one WriteMessages call.
@@ -68,6 +71,11 @@ type Case struct {
 	Faults         []Fault  `json:"faults"`
 	// CloseEarly closes the writer while callers may still be running (C09).
 	CloseAfterUs int `json:"close_after_us,omitempty"`
+	// CallTimeoutMs bounds each WriteMessages call (default 60 s).
+	CallTimeoutMs int `json:"call_timeout_ms,omitempty"`
+	// SettleMs: after the callers are done, wait (without any further input)
+	// until every accepted message was seen in a produce request, at most this long.
+	SettleMs int `json:"settle_ms,omitempty"`
 }
 
 // ID identifies a message: caller.call.index.
@@ -104,6 +112,11 @@ func Build(id ID, m Msg) kafka.Message {
 		v = append(v, byte('a'+(len(v)*7+id.Index)%26))
 	}
 	msg := kafka.Message{Topic: m.Topic, Value: v}
+	if m.ForceTopic == "-" {
+		msg.Topic = ""
+	} else if m.ForceTopic != "" {
+		msg.Topic = m.ForceTopic
+	}
 	if m.KeyLen >= 0 {
 		k := make([]byte, m.KeyLen)
 		for i := range k {
@@ -196,6 +209,8 @@ type Result struct {
 	CloseHung   bool
 	Violations  []string
 	Stalls      int
+	Unsent      []ID // accepted messages not seen in any produce request when the settle period ended
+	SettledAt   time.Time
 	AfterClose  error // result of WriteMessages after Close
 	Cluster     *fakecluster.Cluster
 	Net         *memnet.Network
@@ -362,7 +377,11 @@ func Run(c Case) *Result {
 				for mi, m := range call.Msgs {
 					msgs[mi] = Build(ID{ci, ki, mi}, m)
 				}
-				ctx, cancel := context.WithTimeout(context.Background(), 60*time.Second)
+				callTimeout := 60 * time.Second
+				if c.CallTimeoutMs > 0 {
+					callTimeout = time.Duration(c.CallTimeoutMs) * time.Millisecond
+				}
+				ctx, cancel := context.WithTimeout(context.Background(), callTimeout)
 				if call.CancelMs > 0 {
 					cancel()
 					ctx, cancel = context.WithTimeout(context.Background(), time.Duration(call.CancelMs)*time.Millisecond)
@@ -392,6 +411,45 @@ func Run(c Case) *Result {
 		}
 	} else {
 		<-callersDone
+	}
+	if c.SettleMs > 0 {
+		deadline := time.Now().Add(time.Duration(c.SettleMs) * time.Millisecond)
+		for {
+			want := map[ID]bool{}
+			rmu.Lock()
+			for _, call := range res.Calls {
+				if call.Err == nil {
+					for i := 0; i < call.N; i++ {
+						want[ID{call.ID[0], call.ID[1], i}] = true
+					}
+				}
+			}
+			rmu.Unlock()
+			for _, ex := range cl.Journal() {
+				if ex.ApiKey != 0 || ex.Body == nil {
+					continue
+				}
+				for _, tv := range ex.Body["Topics"].([]any) {
+					for _, pv := range tv.(map[string]any)["Partitions"].([]any) {
+						if rs, _ := pv.(map[string]any)["RecordSet"].(*refcodec.RecordSet); rs != nil {
+							for _, r := range rs.AllRecords() {
+								if id, ok := ParseID(r.Value); ok {
+									delete(want, id)
+								}
+							}
+						}
+					}
+				}
+			}
+			if len(want) == 0 || time.Now().After(deadline) {
+				for id := range want {
+					res.Unsent = append(res.Unsent, id)
+				}
+				break
+			}
+			time.Sleep(2 * time.Millisecond)
+		}
+		res.SettledAt = time.Now()
 	}
 	closed := make(chan struct{})
 	start := time.Now()
